@@ -5,8 +5,12 @@ let () =
   | "c02run" -> C02drv.run_main ()
   | "asmbatch" -> Asmdrv.main ()
   | "asmoracle" -> Asmoracle.main ()
+  | "climodel" -> Clidrv.main ()
   | "asmselftest" -> Asmdrv.selftest ()
   | "rtlproc" -> Rtldrv.proc_main ()
+  | "rtlhex" -> Rtldrv.hex_main ()
+  | "c03step" -> Rtldrv.c03step_main ()
+  | "c03run" -> Rtldrv.c03run_main ()
   | "xsem" -> Xdrv.xsem_main ()
   | "xisa" -> Xdrv.xisa_main ()
   | c -> prerr_endline ("unknown command " ^ c); exit 2
